@@ -194,13 +194,33 @@ class DataObject(JSONSerializable):
             self._hash = None
             del self._data[attr]
 
+    def _comparabledata(self) -> dict[str, Any]:
+        """Return the data used for comparison: all data minus internal, local and
+        cacheonly attributes (the same attributes as those used by __hash__)"""
+        return {
+            k: v
+            for k, v in self._data.items()
+            if k
+            not in self.INTERNALATTRIBUTES
+            | self.LOCAL_ATTRIBUTES
+            | self.CACHEONLY_ATTRIBUTES
+        }
+
     def __eq__(self, other) -> bool:
-        """Equality operator, computed on hash equality"""
-        return hash(self) == hash(other)
+        """Equality operator. The (cached) hashes are compared first; as distinct
+        values may share the same Python hash (e.g. -1 and -2, or 1 and True), the
+        content is then compared too"""
+        if hash(self) != hash(other):
+            return False
+        if isinstance(other, DataObject):
+            return not DataObject.isDifferent(
+                self._comparabledata(), other._comparabledata()
+            )
+        return True
 
     def __ne__(self, other) -> bool:
-        """Difference operator, computed on hash difference"""
-        return hash(self) != hash(other)
+        """Difference operator, opposite of equality operator"""
+        return not self.__eq__(other)
 
     def __lt__(self, other) -> bool:
         """Less than operator, used for sorting. Computed on primary key comparison"""
